@@ -82,7 +82,28 @@ theorem top_inv : ∀ (ss : List Stmt) (base : Nat) (st : CState) (r : List Inst
   | [], base, st, r, T, _, _, h, hi => by
     simp only [compileStmts, pure, Except.pure] at h; cases h; simpa [defsOf] using hi
   | s :: rest, base, st, r, T, hs, hn, h, hi => by
-    simp only [pureSs, Bool.and_eq_true] at hs
+    by_cases hpair : IsPair s rest
+    · -- `e op;`: no definition, no function registered
+      obtain ⟨e, n, op, rest', rfl, rfl⟩ := hpair
+      simp only [pureSs, Bool.and_eq_true] at hs
+      simp only [compileStmts, compileStmt, bind_ok_eq, pure, Except.pure] at h
+      obtain ⟨⟨c, st1⟩, h1, ⟨cs, st2⟩, ⟨⟨ci, sti⟩, hci, ⟨cr, str⟩, hr, hcs⟩, h3⟩ := h
+      cases h3; cases hcs
+      have hne1 : ∀ n' ps b, Stmt.expr e ≠ .expr (.funcDef n' ps b) := by
+        intro n' ps b hx; cases hx; simp [pureE] at hs
+      have hne2 : ∀ n' ps b, Stmt.expr (.postfix n op) ≠ .expr (.funcDef n' ps b) := by
+        intro n' ps b hx; cases hx
+      rw [topNd_other _ _ hne1, topNd_other _ _ hne2] at hn
+      simp only [Bool.and_eq_true] at hn
+      rw [defsOf_other _ _ hne1, defsOf_other _ _ hne2]
+      have f1 : st1.funcs = st.funcs := pureE_funcs e base st _ hs.1.2 h1
+      have f2 : sti.funcs = st1.funcs := postfix_funcs n op _ _ _ hci
+      have x1 := (compileExpr_R e base st _ h1).ext
+      have x2 := (compileExpr_R (.postfix n op) _ _ _ hci).ext
+      have hi1 : Inv sti.funcs T sti.consts := by
+        rw [f2, f1]; exact (hi.mono x1).mono x2
+      exact top_inv rest' _ _ (cr, str) T hs.2 hn.2.2 hr hi1
+    rw [pureSs_other s rest hpair, Bool.and_eq_true] at hs
     simp only [compileStmts, bind_ok_eq, pure, Except.pure] at h
     obtain ⟨⟨c, st1⟩, h1, ⟨cs, st2⟩, h2, h3⟩ := h
     cases h3
